@@ -114,6 +114,24 @@ def preimages(ctx: Ctx, f: Func, a: ast.AST, depth: int = 0) -> List[Tuple[Func,
     return [(f, a)]
 
 
+def dataclass_field_source(h: Func, br: ast.AST) -> List[str]:
+    """the dataclass branch enumerates the fields with dataclasses.fields(): `__dataclass_fields__`, vars() / __dict__ / dir()
+    also hold ClassVar / InitVar pseudo-fields or non-field attributes, i.e. class-level state that is not part of the value"""
+    out: List[str] = []
+    for n in ast.walk(br):
+        bad = None
+        if isinstance(n, ast.Attribute) and n.attr in ("__dataclass_fields__", "__dict__", "__annotations__"):
+            bad = n.attr
+        elif isinstance(n, ast.Call) and isinstance(n.func, ast.Name) and n.func.id in ("vars", "dir"):
+            bad = n.func.id + "()"
+        if bad:
+            out.append(f"{h.loc(n)}: the components of a dataclass are taken from `{bad}`: ClassVar pseudo-fields (e.g. an instance counter) are hashed, so two equal "
+                       "values hash differently after the class-level state changed (the signature depends on what ran before in the process)")
+    if not any(isinstance(n, ast.Call) and unparse(n.func).endswith("fields") for n in ast.walk(br)) and not out:
+        out.append(f"{h.loc(br)}: the dataclass branch does not enumerate dataclasses.fields(value)")
+    return out
+
+
 def run(ctx: Ctx) -> None:
     rep = ctx.report
     prog = ctx.prog
@@ -222,6 +240,31 @@ def run(ctx: Ctx) -> None:
     if not len_checkers:
         rep.bad("C05.R6", outer.qname, "a size guard raising SEQUENCE_TOO_LONG exists", outer.loc(), ["no nested function raises DDSException(..., SEQUENCE_TOO_LONG)"], "no-guard",
                 what="no size guard with a coded error")
+    # the error path is itself well typed: building the message of the coded exception cannot raise a low-level TypeError
+    rep.rule("C05.R7", "no type error (mypy: arg-type / operator / call-arg / index / union-attr) in the statements that build and raise the coded "
+                       "size error, nor in the nested helpers they call")
+    import re as _re
+    for g in len_checkers:
+        for r in raises_with_code(g, "SEQUENCE_TOO_LONG"):
+            region = [(g, r.lineno, getattr(r, "end_lineno", r.lineno))]
+            for c in ast.walk(r):
+                if isinstance(c, ast.Call) and isinstance(c.func, ast.Name) and c.func.id in outer.nested:
+                    hf = outer.nested[c.func.id]
+                    region.append((hf, hf.node.lineno, getattr(hf.node, "end_lineno", hf.node.lineno)))
+            errs = []
+            for e in getattr(ctx.types, "errors", []):
+                m_ = _re.match(r"(.*?):(\d+): error: (.*)\[(arg-type|operator|call-arg|index|union-attr|call-overload)\]\s*$", e)
+                if m_ and m_.group(1).replace("\\", "/").endswith(g.module.relpath):
+                    ln = int(m_.group(2))
+                    if any(lo <= ln <= hi for (_f, lo, hi) in region):
+                        errs.append(e)
+            desc = "the statements that build the SEQUENCE_TOO_LONG error are well typed"
+            if errs:
+                rep.bad("C05.R7", g.qname, desc, g.loc(r), errs + ["the hint of the offending position holds list indices (int) next to names: an ill-typed string operation on it raises "
+                        "TypeError, which replaces the coded DDSException for an over-long sequence nested under a list / tuple index"], "error-path-typed",
+                        what="building the size-limit error message raises a low-level TypeError")
+            else:
+                rep.ok("C05.R7", g.qname, desc + f" ({len(region)} region(s))", g.loc(r))
     for names, br in brs:
         if not (set(names) & {"list", "tuple", "dict", "OrderedDict", "<dataclass>"}):
             continue
@@ -262,6 +305,8 @@ def run(ctx: Ctx) -> None:
                     wit.append(f"{h.loc(call)}: separator {sep!r} is inside the alphabet of the joined hex digests: [x, yz] and [xy, z] style collisions")
             if isinstance(call, ast.Call) and unparse(call.func) in ("sorted", "set", "frozenset", "reversed") and "list" in names:
                 wit.append(f"{h.loc(call)}: `{unparse(call.func)}` applied in the sequence branch")
+        if "<dataclass>" in names:
+            wit += dataclass_field_source(h, br)
         desc = f"branch {label}: whole value iterated, every component hashed, order kept"
         if wit:
             rep.bad("C05.R3", h.qname, desc, h.loc(br), wit, f"container:{label}", what=f"the {label} branch drops or reorders components")
